@@ -159,7 +159,13 @@ def analyse_function(fn, where, out, helper_calls=None):
                         base = target_base(tg)
                         record(st, base, env)
                     elif isinstance(tg, ast.Attribute):
-                        pass                      # self.x = ...: rebinding a slot
+                        # self.x = ...: rebinding one of the object's own slots; other.x = ...: a store into
+                        # another object (an element parameter, say) - recorded with that object's provenance
+                        r = tg.value
+                        while isinstance(r, (ast.Attribute, ast.Subscript)):
+                            r = r.value
+                        if not (isinstance(r, ast.Name) and r.id in ("self", "cls")):
+                            record(st, tg.value, env)
                     else:
                         raise Unsupported(f"{where}: assignment target {ast.dump(tg)[:60]}")
             elif isinstance(st, ast.AnnAssign):
